@@ -9,7 +9,7 @@ Raw/RawLefExport.v (harness bin c20x)."""
 import json, os, re, struct, subprocess
 from vlib import *
 
-HARNESS_BINS = ["c20", "c20x"]      # c20x: the raw -> LEF exporter against its Coq model (section at the end of this file)
+HARNESS_BINS = ["c20", "c20x", "c08"]      # c20x: the raw -> LEF exporter against its Coq model (section at the end of this file)
 
 # ------------------------------------------------------------------ a small GDSII byte writer (independent of /repo)
 def gds_real(x):
@@ -65,15 +65,16 @@ def gds_bytes(lib):
     out.append(rec(0x04, 0))
     return b"".join(out)
 
-def gen_gds(rng):
-    n = rng.randrange(1, 6)
+def gen_gds(rng, n=None, maxel=8, layers=(1, 2, 5, 7, 31, 66), dts=(0, 0, 1, 20)):
+    if n is None:
+        n = rng.randrange(1, 6)
     names = ["cell%d" % i for i in range(n)]
     structs = []
     for i in range(n):
         elems = []
-        for _ in range(rng.randrange(0, 8)):
-            layer = rng.choice([1, 2, 5, 7, 31, 66])
-            dt = rng.choice([0, 0, 1, 20])
+        for _ in range(rng.randrange(0, maxel)):
+            layer = rng.choice(layers)
+            dt = rng.choice(dts)
             x0, y0 = rng.randrange(-500, 500), rng.randrange(-500, 500)
             w, h = rng.randrange(10, 300), rng.randrange(10, 300)
             c = rng.randrange(6)
@@ -107,19 +108,19 @@ def gen_gds(rng):
     rng.shuffle(structs)
     return {"name": "lib", "structs": structs}
 
-def gen_lef(rng):
-    layers = ["met1", "met2", "met3", "via1", "poly"]
+def gen_lef(rng, layers=("met1", "met2", "met3", "via1", "poly"), maxmac=4, maxpin=4, maxport=3, maxlay=4):
+    layers = list(layers)
     out = ["VERSION 5.8 ;", 'BUSBITCHARS "[]" ;', 'DIVIDERCHAR "/" ;', "UNITS", "  DATABASE MICRONS 1000 ;", "END UNITS"]
-    nm = rng.randrange(1, 4)
+    nm = rng.randrange(1, maxmac)
     for m in range(nm):
         name = "mac%d" % m
         out += ["MACRO %s" % name, "  CLASS CORE ;", "  SIZE %d BY %d ;" % (rng.randrange(1, 20), rng.randrange(1, 20))]
-        for p in range(rng.randrange(1, 4)):
+        for p in range(rng.randrange(1, maxpin)):
             pn = "p%d" % p
             out += ["  PIN %s" % pn, "    DIRECTION INPUT ;"]
-            for _ in range(rng.randrange(1, 3)):
+            for _ in range(rng.randrange(1, maxport)):
                 out.append("    PORT")
-                for l in rng.sample(layers, rng.randrange(1, 4)):
+                for l in rng.sample(layers, rng.randrange(1, min(maxlay, len(layers) + 1))):
                     out.append("      LAYER %s ;" % l)
                     for _ in range(rng.randrange(1, 3)):
                         x, y = rng.randrange(0, 10), rng.randrange(0, 10)
@@ -128,7 +129,7 @@ def gen_lef(rng):
             out.append("  END %s" % pn)
         if rng.random() < 0.8:
             out.append("  OBS")
-            for l in rng.sample(layers, rng.randrange(1, 5)):
+            for l in rng.sample(layers, rng.randrange(1, min(max(5, maxlay), len(layers) + 1))):
                 out.append("    LAYER %s ;" % l)
                 x, y = rng.randrange(0, 10), rng.randrange(0, 10)
                 out.append("      RECT %d %d %d %d ;" % (x, y, x + rng.randrange(1, 5), y + rng.randrange(1, 5)))
@@ -136,6 +137,85 @@ def gen_lef(rng):
         out.append("END %s" % name)
     out.append("END LIBRARY")
     return "\n".join(out) + "\n"
+
+# ------------------------------------------------------------------ generator audit 2026-10-02: sources the quick tier never had
+NEW_LEF_LAYERS = ("met1", "li1", "nwell", "M1", "met3", "pwell", "via2", "poly", "mcon")
+def audit_sources(rng, quick):
+    """rawlib_views: raw libraries with BOTH views, abstract-only leaf cells, ports / blockages on up to all six layers, elements on many
+    layers and purposes, cells listed in shuffled order (every exporter has a map AND a dependency order to walk);
+    gds_new_layers / lef_new_layers: layers that are not in the prepared table, and importers started without any table (every
+    layer is created on the way); gds_big / lef_big: 12 structs x up to 60 elements over 6 layers x 4 datatypes, macros with
+    8 pins x 3 ports x 5 layers (hash maps with many more than two keys)."""
+    out = []
+    reps = 4 if quick else 8
+    nums = [1, 2, 5, 7, 31, 66]
+    def shape_map(lo, hi, pool):
+        return [[l, rng.randrange(1, 4)] for l in rng.sample(pool, rng.randrange(lo, min(hi, len(pool)) + 1))]
+    for k in range(24 if quick else 240):
+        n = rng.randrange(3, 9)
+        order = list(range(n)); rng.shuffle(order)
+        pool = nums if k % 2 else nums[:5]            # the sixth layer has no name: the LEF exporter refuses it
+        cells = []
+        for j in range(n):
+            lower = [i for i in range(n) if order[i] < order[j]]
+            c = {"name": "c%d" % j, "insts": [rng.choice(lower) for _ in range(rng.randrange(0, 5))] if lower else [],
+                 "elems": [[rng.choice(nums), rng.choice([0, 0, 1, 3]), rng.randrange(-50, 50), rng.randrange(-50, 50), rng.choice([None, None, "a", "b"])]
+                           for _ in range(rng.randrange(0, 9))]}
+            if rng.random() < 0.6:
+                c["abs"] = {"ports": [shape_map(1, 5, pool) for _ in range(rng.randrange(1, 4))], "blk": shape_map(0, 5, pool)}
+                if not c["insts"] and rng.random() < 0.4:
+                    c["nolayout"] = True
+            cells.append(c)
+        out.append({"src": "rawlib", "fam": "rawlib_views", "cells": cells, "reps": reps})
+    allmap = [[l, 2] for l in nums]
+    out.append({"src": "rawlib", "fam": "rawlib_views", "reps": 8, "cells": [
+        {"name": "top", "insts": [2, 1, 2], "elems": [[l, p, 3 * l, p, None] for l in nums for p in (0, 1, 3)], "abs": {"ports": [allmap, allmap[::-1], allmap[:5]], "blk": allmap[::-1]}},
+        {"name": "leafabs", "insts": [], "nolayout": True, "abs": {"ports": [allmap[:5][::-1]], "blk": allmap[:5]}},
+        {"name": "leaf", "insts": [], "elems": [[2, 0, 1, 1, None]]}]})
+    for k in range(12 if quick else 120):
+        g = gen_gds(rng, layers=(1, 3, 4, 8, 66, 100, 200, 255), dts=(0, 2, 5, 20, 63))
+        out.append({"src": "gds", "fam": "gds_new_layers", "hex": gds_bytes(g).hex(), "reps": reps, "nolayers": k % 2 == 0})
+    for k in range(2 if quick else 10):
+        g = gen_gds(rng, n=12, maxel=61, dts=(0, 1, 20, 3))
+        out.append({"src": "gds", "fam": "gds_big", "hex": gds_bytes(g).hex(), "reps": reps, "nolayers": k % 2 == 1})
+    for k in range(12 if quick else 120):
+        out.append({"src": "lef", "fam": "lef_new_layers", "text": gen_lef(rng, layers=NEW_LEF_LAYERS, maxlay=6), "reps": reps, "nolayers": k % 2 == 0})
+    for k in range(2 if quick else 10):
+        out.append({"src": "lef", "fam": "lef_big", "text": gen_lef(rng, layers=NEW_LEF_LAYERS if k % 2 else ("met1", "met2", "met3", "via1", "poly"), maxmac=4, maxpin=9, maxport=4, maxlay=6),
+                    "reps": reps, "nolayers": k % 2 == 1})
+    return out
+
+def tetris_leg(chk, nproc, replay_cases=None):
+    """gridded -> raw (the fifth conversion the statement names): C08's generators and C08's harness (Library::to_raw, shapes printed in
+    the exporter's own order), every library converted twice inside each of `nproc` separate processes; all outputs must agree."""
+    from props import c08 as t
+    quick = chk.tier == "quick"
+    fam = t.stack_family()
+    cases = [c for c in t.directed_cases(fam) + t.audit_cases(fam) if c.get("op") == "compile"]
+    for st in fam:
+        for _ in range(8 if quick else 80):
+            cases.append({"op": "compile", "stack": st, "cells": t.gen_lib(chk.rng, st, big=True), "kind": "rand"})
+    if replay_cases is not None:
+        cases = replay_cases
+    inp = [t.strip(c) for c in cases]
+    from concurrent.futures import ThreadPoolExecutor
+    with ThreadPoolExecutor(max_workers=min(nproc, NCPU)) as ex:
+        runs = list(ex.map(lambda _: harness("c08", inp + inp), range(nproc)))
+    n = len(inp)
+    view = lambda r: r if "ok" in r else sorted(r.keys())        # error texts carry Debug prints: only the class is compared
+    bad = []
+    for i in range(n):
+        vs = [view(r[i]) for r in runs] + [view(r[i + n]) for r in runs]
+        if any(v != vs[0] for v in vs[1:]):
+            bad.append(i)
+    chk.cov["evaluations"] += 2 * n * nproc
+    chk.cov["traces_validated_against_impl"] += 2 * (n - len(bad)) * nproc
+    chk.cov["input_distribution"]["tetris_sources"] = {"libraries": n, "converted_ok": sum(1 for r in runs[0][:n] if "ok" in r), "conversions_each": 2 * nproc,
+                                                       "shapes_in_first_run": sum(len(c) for r in runs[0][:n] for c in r.get("ok", []))}
+    if bad:
+        i = min(bad, key=lambda j: len(json.dumps(inp[j])))
+        chk.violation("conversion stage tetris_to_raw gives different results for one input (%d libraries); smallest: %s" % (len(bad), json.dumps(inp[i])[:400]),
+                      {"cases": [cases[i]], "stage": "tetris_to_raw"}, suffix="-tetris_to_raw")
 
 def src_of(c):
     return c.get("hex") or c.get("text") or json.dumps(c.get("layers") or c.get("cells"))
@@ -156,6 +236,11 @@ def run(chk, replay=None):
     xcases = None
     if replay:
         cases = json.load(open(replay))["replay"]["cases"]
+        tcases = [c for c in cases if c.get("op") == "compile"]      # gridded -> raw (harness c08)
+        if tcases:
+            chk.cov["input_distribution"] = {}
+            tetris_leg(chk, 4, tcases)
+            return
         xcases = [c for c in cases if "op" in c]          # cases of the raw -> LEF model leg (harness c20x)
         cases = [c for c in cases if "op" not in c]
         if not cases:
@@ -195,6 +280,7 @@ def run(chk, replay=None):
         # always: one port on two and three layers, obstructions on three layers
         cases.append({"src": "lef", "reps": 8, "text": "VERSION 5.8 ;\nMACRO m\n  SIZE 4 BY 4 ;\n  PIN a\n    PORT\n      LAYER met1 ;\n        RECT 0 0 1 1 ;\n      LAYER met2 ;\n        RECT 1 1 2 2 ;\n    END\n  END a\nEND m\nEND LIBRARY\n"})
         cases.append({"src": "lef", "reps": 8, "text": "VERSION 5.8 ;\nMACRO m\n  SIZE 4 BY 4 ;\n  PIN a\n    PORT\n      LAYER met1 ;\n        RECT 0 0 1 1 ;\n      LAYER met2 ;\n        RECT 1 1 2 2 ;\n      LAYER met3 ;\n        RECT 2 2 3 3 ;\n    END\n  END a\n  OBS\n    LAYER met1 ;\n      RECT 0 0 1 1 ;\n    LAYER met2 ;\n      RECT 0 0 1 1 ;\n    LAYER met3 ;\n      RECT 0 0 1 1 ;\n  END\nEND m\nEND LIBRARY\n"})
+        cases += audit_sources(chk.rng, quick)
     nproc = 4 if quick else 16
     from concurrent.futures import ThreadPoolExecutor
     with ThreadPoolExecutor(max_workers=min(nproc, NCPU)) as ex:
@@ -227,9 +313,12 @@ def run(chk, replay=None):
                        "%d times per process in %d separate processes; non-trivial = source longer than 200 characters; distinct by source" % (cases[0]["reps"], nproc))
     chk.cov["traces_validated_against_impl"] = len(cases) * nproc - len({b[0] for b in bad}) * nproc
     chk.cov["input_distribution"] = {"gds_sources": sum(1 for c in cases if c["src"] == "gds"), "tech_sources": sum(1 for c in cases if c["src"] == "tech"), "rawlib_sources": sum(1 for c in cases if c["src"] == "rawlib"), "lef_sources": sum(1 for c in cases if c["src"] == "lef"),
+                                     "audit_families": {f: sum(1 for c in cases if c.get("fam") == f) for f in sorted({c.get("fam") for c in cases if c.get("fam")})},
                                      "stage_results": stage_counts, "stages_ending_in_error": errs, "processes": nproc}
     if xcases is None or xcases:
         lefx_leg(chk, xcases)
+    if not replay:
+        tetris_leg(chk, nproc)
     chk.add_samples([{"src": c["src"], "source": src_of(c)[:400], "stages": runs[0][i].get("stages")} for i, c in list(enumerate(cases))[:: max(1, len(cases) // 3)]], k=3)
     if bad:
         # group by stage; pick the smallest source per stage
